@@ -6,6 +6,7 @@
 package main
 
 import (
+	"fmt"
 	"strings"
 
 	"github.com/Shopify/sarama"
@@ -109,6 +110,33 @@ func starts(r *hlib.Rand, n int) {
 	run.Count("start-offset-choice")
 }
 
+// e2eCase: end-to-end scenario number i of a seed (replayable as the line "e2e <seed> <i>")
+func e2eCase(seed uint64, i int) {
+	r := hlib.NewRand(seed*1000003 + uint64(i) + 17)
+	format := r.Intn(4)
+	lg := cpgen.GenLog(r, cpgen.LogOpts{Format: format, MaxUnits: r.Pick(3, 6, 12), BigBase: r.Chance(1, 6)})
+	so := lg.StartOffsets()
+	start := so[r.Intn(len(so))]
+	switch r.Intn(8) {
+	case 0:
+		start = sarama.OffsetOldest
+	case 1:
+		start = sarama.OffsetNewest
+	}
+	o := cpgen.E2EOpts{Rc: r.Chance(1, 4), Kv: cpgen.PickVersion(r, format), Start: start, FetchDef: int32(r.Pick(64, 100, 256, 1024, 1<<20)),
+		Faults: r.Bool(), Slow: r.Chance(1, 3), ChanBuf: r.Pick(0, 1, 4, 256), MaxUnits: r.Pick(1, 2, 3, 8)}
+	id := fmt.Sprintf("e2e %d %d", seed, i)
+	run.Case(id)
+	run.Count("e2e-scenario")
+	if o.Slow {
+		run.Count("e2e-slow-reader")
+	}
+	if o.Faults {
+		run.Count("e2e-with-faults")
+	}
+	cpgen.RunE2E(run, id, seed*7919+uint64(i), lg, o)
+}
+
 func main() {
 	run = hlib.Start("C03")
 	rn = &cpgen.Runner{Run: run}
@@ -121,6 +149,9 @@ func main() {
 				}
 			case strings.HasPrefix(l, "resp "):
 				rn.ReplayStep(l)
+			case strings.HasPrefix(l, "e2e "):
+				t := strings.Fields(l)
+				e2eCase(uint64(hlib.Atoi(t[1])), hlib.Atoi(t[2]))
 			case strings.HasPrefix(l, "start "):
 				t := strings.Fields(l)
 				rn.StartOp(int64(hlib.Atoi(t[1])), int64(hlib.Atoi(t[2])), int64(hlib.Atoi(t[3])))
@@ -136,7 +167,7 @@ func main() {
 	run.Set("v1_wrapper_timestamp_from_wrapper_attribute", rn.TsW)
 	n := run.N
 	if n == 0 {
-		n = 1500
+		n = 5000
 		if run.Tier == "thorough" {
 			n = 60000
 		}
@@ -163,6 +194,13 @@ func main() {
 		so := lg.StartOffsets()
 		history(r, format, false, so[r.Intn(len(so))], lg, kv)
 	}
+	ne := 60
+	if run.Tier == "thorough" {
+		ne = 600
+	}
+	for i := 0; i < ne; i++ {
+		e2eCase(run.Seed, i)
+	}
 	run.Finish("case = one fetch history (reset + responses) of a generated log served by a simulated faithful broker, or one edge case; " +
-		"non-trivial = distinct history that delivered at least one message")
+		"or one end-to-end scenario (real Consumer against MockBroker); non-trivial = distinct history / scenario that delivered at least one message")
 }
